@@ -2688,7 +2688,7 @@ func main() {
 				w.Add("hit.outcome/"+k, v)
 			}
 		},
-		Rule: "case = PRNG StateT[string,int] program skeleton (node budget 8 quick / 16 thorough; the leaves that complete the last combinators may exceed it, see max_program_nodes) over 13 primitives (Pure, FromTry, Get, GetS, GetST, Put, PutWith, Modify, ModifyS, ModifyT, Run, Merge, WithState) and 41 combinators/methods (FlatMap, FlatMapConst, Map, MapT, MapWithState(T), PeekState, Transform, TransformWith, Replace, Flatten, Ap, ApFunc, ApTry, ApOption, Map2, Zip, Map3, Zip3, FlatMap2, Compose, Sequence, SequenceIterator, Concat, 8 Traverse variants, FoldM, 8 Recover* methods), executed from a PRNG initial state with no failure, with exactly one failure at each of its failure points (FromTry, GetST, ModifyT, MapT, MapWithStateT, Transform, ApTry, ApOption=None, failing handlers of RecoverT/RecoverWithStateT/RecoverCaseT) with every pair (failing Recover handler, other failure point; at most 8) and with two PRNG subsets; for each failure set ONE program value is built and executed six times in PRNG order (Run, Exec, Eval from the first initial state, Run from a second, two PRNG method/state choices out of three states), each execution compared (result, final state, log of run-time callbacks with their arguments) with a reference interpreter started in the same state, all kept results compared again after the last execution; the same value is then wrapped in each of the 8 Recover variants with equivalent handlers and every wrapper is executed from two initial states. Program VALUES are shared inside a skeleton too: a position is filled with an already bound value with probability 1/5, a new subtree is bound with probability 1/5, and with probability 1/4 the operands of Map2/Zip/Ap/ApFunc/Flatten/FlatMapConst/FlatMap/FlatMap2/Map3/Zip3/Concat/Sequence/SequenceIterator are one and the same value, as are a program and the program its RecoverWith/RecoverCaseWith handler or TransformWith failure branch returns (build returns the identical fp.StateT for every occurrence; the reference just runs the sub-program again). A mismatch is keyed by the smallest sub-program that disagrees when built on its own and executed as often (<site>/result|state|callbacks for its first execution, <site>/rerun-differs for a later one). Rerun batches: the raw Iterator/Seq/slice/accumulator-valued program of FoldM, the 6 Traverse forms, FlatMapTraverseSeq/Slice, Sequence, SequenceIterator is built once from its (one-shot) iterator, executed 3..5 times by Run/Exec/Eval from PRNG states (Seq/slice results kept as returned and read again after the later executions, Iterator results read only then) and used at two positions of Concat/Map2/Zip/Sequence/FlatMap/FlatMapConst/its own RecoverWith handler (executed twice). State = string; every state-changing step appends a token naming the step. Law batches run the explicit instances, each program value executed from two initial states (Put;Get / Get>>=Put / Modify = Get>>=Put.f / k steps through each sequencing combinator with a failing step / ModifyT failure / the 8 Recover variants on one program). distinct_nontrivial = distinct (program, initial state, failure set) executions in which a failure originated when the state already differed from the initial state AND the final state differs from the failure-free execution of the same skeleton (the failure cut off a later state change), plus left-to-right law instances whose failing step is neither first nor last, plus rerun cases (program, states, failure set) over at least two elements.",
+		Rule: "case = PRNG StateT[string,int] program skeleton (node budget 8 quick / 16 thorough; the leaves that complete the last combinators may exceed it, see max_program_nodes) over 13 primitives (Pure, FromTry, Get, GetS, GetST, Put, PutWith, Modify, ModifyS, ModifyT, Run, Merge, WithState) and 41 combinators/methods (FlatMap, FlatMapConst, Map, MapT, MapWithState(T), PeekState, Transform, TransformWith, Replace, Flatten, Ap, ApFunc, ApTry, ApOption, Map2, Zip, Map3, Zip3, FlatMap2, Compose, Sequence, SequenceIterator, Concat, 8 Traverse variants, FoldM, 8 Recover* methods), executed from a PRNG initial state with no failure, with exactly one failure at each of its failure points (FromTry, GetST, ModifyT, MapT, MapWithStateT, Transform, ApTry, ApOption=None, failing handlers of RecoverT/RecoverWithStateT/RecoverCaseT) with every pair (failing Recover handler, other failure point; at most 8) and with two PRNG subsets; for each failure set ONE program value is built and executed six times in PRNG order (Run, Exec, Eval from the first initial state, Run from a second, two PRNG method/state choices out of three states), each execution compared (result, final state, log of run-time callbacks with their arguments) with a reference interpreter started in the same state, all kept results compared again after the last execution; the same value is then wrapped in each of the 8 Recover variants with equivalent handlers and every wrapper is executed from two initial states. Program VALUES are shared inside a skeleton too: a position is filled with an already bound value with probability 1/5, a new subtree is bound with probability 1/5, and with probability 1/4 the operands of Map2/Zip/Ap/ApFunc/Flatten/FlatMapConst/FlatMap/FlatMap2/Map3/Zip3/Concat/Sequence/SequenceIterator are one and the same value, as are a program and the program its RecoverWith/RecoverCaseWith handler or TransformWith failure branch returns (build returns the identical fp.StateT for every occurrence; the reference just runs the sub-program again). A mismatch is keyed by the smallest sub-program that disagrees when built on its own and executed as often (<site>/result|state|callbacks for its first execution, <site>/rerun-differs for a later one). Rerun batches: the raw Iterator/Seq/slice/accumulator-valued program of FoldM, the 6 Traverse forms, FlatMapTraverseSeq/Slice, Sequence, SequenceIterator is built once from its (one-shot) iterator, executed 3..5 times by Run/Exec/Eval from PRNG states (Seq/slice results kept as returned and read again after the later executions, Iterator results read only then) and used at two positions of Concat/Map2/Zip/Sequence/FlatMap/FlatMapConst/its own RecoverWith handler (executed twice). State = string; every state-changing step appends a token naming the step. Law batches run the explicit instances, each program value executed from two initial states (Put;Get / Get>>=Put / Modify = Get>>=Put.f / k steps through each sequencing combinator with a failing step / ModifyT failure / the 8 Recover variants on one program). distinct_nontrivial = distinct (program, initial state, failure set) executions in which a failure originated when the state already differed from the initial state AND the final state differs from the failure-free execution of the same skeleton (the failure cut off a later state change), plus left-to-right law instances whose failing step is neither first nor last, plus rerun cases (program, states, failure set) over at least two elements, plus capture cases over a caller slice of at least two elements. INPUT CAPTURE: a program is a value built from its inputs as they were at the call. In every batch the slice handed to Sequence / SequenceIterator (behind iterator.FromSeq) / Concat (the slice spread into the variadic parameter) / the six Traverse forms / FoldM is overwritten by its owner as soon as the combinator has returned (other steps that change state and log, other items); a disagreement is re-examined with the slice left alone and keyed <site>/reads-input-after-build when that control agrees. Capture batches (appended last) call each of the ten sites with a caller-owned buffer of 0,1,2,3,..9,12,16,17,33 elements with 0..3 spare capacity and execute the program 2..4 times by Run/Exec/Eval from PRNG states; before every execution the caller re-uses its buffer by a PRNG script (overwrite one / all positions with decoy steps or a failing step, reverse, rotate, clear the tail to nil, truncate and re-append, append into the spare capacity); every execution must equal the reference interpretation of the program as written; control = the identical schedule with the writes going to a clone of the buffer.",
 		Assumptions: []string{
 			"user callbacks are deterministic and touch nothing but the run's own log",
 			"programs are PRNG samples up to the size bound, not all programs; failure positions of a sampled skeleton are enumerated exhaustively one at a time",
@@ -2697,6 +2697,7 @@ func main() {
 			"callbacks that only construct a program from arguments known before the run (Traverse fn, FoldM f, ApFunc thunk, Compose f1) are not part of the compared callback log",
 			"a StateT value is a re-runnable description: executing it again, from any state and at any position of a larger program, means the same as executing a freshly built one; an fp.Iterator ARGUMENT is single-use, so a program is built from it once and that program value is what gets executed repeatedly",
 			"failure sets are fixed per built program value (FromTry/ApTry/ApOption bake the outcome in at construction); executions of one value differ in method and initial state only",
+			"slice, variadic and iterator ARGUMENTS are read while the program is built (what the unchanged library does at all ten sites: FoldM drains its iterator into FlatMap closures, Concat folds its variadic slice into FlatMapConst): the caller may re-use its buffer as soon as the call has returned. The Seq / slice a FlatMapTraverse* program produces at run time is not a build-time input and is not tampered with",
 		},
 		Floors: func(tier string) map[string]int64 {
 			f := map[string]int64{"programs": 60000, "runs": 200000, "runs.top_level_failure": 20000, "runs.failure_recovered": 8000, "distinct": 10000,
